@@ -93,6 +93,9 @@ def compile_one(src, out, cfg, extra=(), timeout=600):
         if "tsan" in cfg:
             cmd += ["-pthread"]
     rc, so, se = sh(cmd, timeout)
+    if rc == -999:
+        # a compiler that ran out of time says nothing about the code (a loaded machine): once more, with four times the budget
+        rc, so, se = sh(cmd, timeout * 4)
     return rc, se
 
 
